@@ -23,7 +23,7 @@ try:
         k = ''.join(c for c in os.path.basename(patch) if c.isdigit()) or '1'
         demos = glob.glob(os.path.join(deliver, 'demo_*_%s.rs' % k))
         meta_in = os.path.join(deliver, 'meta%s.json' % k)
-        rec = {'property': prop, 'source': 'independent sub-agent given only the property text and a scratch worktree' + (' (sixth round: asked for cooperating sites / multi-step sequences / unusual inputs, given the list of everything tried for this property before)' if offset >= 10 else ' (fifth round: the list of tried kinds extended by the fourth round)' if offset >= 8 else ' (fourth round: told every kind of change tried so far and asked for a different kind)' if offset >= 6 else ' (third round: asked for the least-visited places the property depends on)' if offset >= 4 else ' (second round: asked for subtler changes than the obvious slips)' if offset else ''), 'checks_run': []}
+        rec = {'property': prop, 'source': 'independent sub-agent given only the property text and a scratch worktree' + (' (seventh round: same protocol as the sixth, for the properties whose checks changed most in the sixth round)' if offset >= 12 else ' (sixth round: asked for cooperating sites / multi-step sequences / unusual inputs, given the list of everything tried for this property before)' if offset >= 10 else ' (fifth round: the list of tried kinds extended by the fourth round)' if offset >= 8 else ' (fourth round: told every kind of change tried so far and asked for a different kind)' if offset >= 6 else ' (third round: asked for the least-visited places the property depends on)' if offset >= 4 else ' (second round: asked for subtler changes than the obvious slips)' if offset else ''), 'checks_run': []}
         if os.path.exists(meta_in):
             try:
                 rec['agent_meta'] = json.load(open(meta_in))
